@@ -585,3 +585,86 @@ unit("C01", "modes.copies_keep_pipeline")(_copies)
 # overrides given to run_mode are part of the configuration the models run with (shared with C08)
 from . import C08 as _C08o  # noqa: E402
 unit("C01", "overrides")(_C08o.overrides_unit)
+
+
+# ---- 9. evaluate_reference: the configured dotted name resolves to THAT attribute of THAT module ------------------------------------------
+REF_REPLAY = lambda w: {"code": """
+import types, sys
+from pyxel.evaluator import evaluate_reference
+pkg, sub = types.ModuleType('vp_pkg'), types.ModuleType('vp_pkg.sub')
+def f(): return 'pkg.f'
+def g(): return 'sub.f'
+pkg.f, sub.f, sub.value, pkg.sub = f, g, 3, sub
+sys.modules['vp_pkg'], sys.modules['vp_pkg.sub'] = pkg, sub
+VIOLATED, DETAIL = False, 'a dotted name resolves to the named attribute of the named module'
+for ref, want in (('vp_pkg.f', f), ('vp_pkg.sub.f', g)):
+    try:
+        got = evaluate_reference(ref)
+    except Exception as e:
+        got = f'{type(e).__name__}: {e}'
+    if got is not want:
+        VIOLATED, DETAIL = True, f"evaluate_reference({ref!r}) -> {got!r}, expected the function {ref}"
+for bad, exc in (('', ImportError), ('nodots', ImportError), ('vp_pkg.missing', ImportError), ('vp_nopkg.f', ModuleNotFoundError), ('vp_pkg.sub.value', TypeError)):
+    try:
+        r = evaluate_reference(bad); VIOLATED, DETAIL = True, f'evaluate_reference({bad!r}) returned {r!r}'
+    except exc:
+        pass
+    except Exception as e:
+        VIOLATED, DETAIL = True, f'evaluate_reference({bad!r}) raised {type(e).__name__}, expected {exc.__name__}'
+""", "expect": "module = text before the last dot, attribute = text after it; anything unresolvable is an error"}
+
+
+@unit("C01", "reference.resolve")
+def reference_resolve(u: Unit):
+    """evaluate_reference(s) for EVERY string s: with no dot (or empty) ImportError; otherwise importlib.import_module is asked for exactly
+    the text before the LAST dot and the result is the attribute named by the text after it of the module that came back (never another
+    module, never a cached earlier answer); a missing module -> ModuleNotFoundError, a missing attribute -> ImportError, a non-callable
+    -> TypeError. importlib / getattr / callable are the boundary (arbitrary outcomes)."""
+    fi = u.fn("pyxel/evaluator.py::evaluate_reference")
+    S = z3.String("reference")
+    cfg = Cfg("real")
+    rec = {}
+
+    def import_module(ex, f, args, kwargs, fr):
+        rec.setdefault("imports", []).append(args[0])
+        k = ex.st.choose([True, True])
+        if k == 1:
+            ex.throw("ModuleNotFoundError", "no such module")
+        return VOpaque("module", ex.st.fresh_int("module"), {"name": args[0]})
+
+    def getattr_(ex, f, args, kwargs, fr):
+        if not (isinstance(args[0], VOpaque) and args[0].kind == "module"):
+            raise Unsupported("getattr on a non-module in evaluate_reference")
+        rec.setdefault("getattrs", []).append((args[0], args[1]))
+        if ex.st.choose([True, True]) == 1:
+            ex.throw("AttributeError", "no such attribute")
+        return VOpaque("attr", ex.st.fresh_int("attr"), {"module": args[0], "name": args[1], "callable": ex.st.fresh_bool("is_callable")})
+    cfg.lib_overrides["importlib.import_module"] = import_module
+    cfg.lib_overrides["builtins.getattr"] = getattr_
+    cfg.lib_overrides["builtins.callable"] = lambda ex, f, args, kwargs, fr: VBool(args[0].info["callable"]) if isinstance(args[0], VOpaque) and args[0].kind == "attr" else VBool(False)
+
+    def setup(ex):
+        rec.clear()
+        return [VStr(S)], {}
+    ps = u.paths(fi, setup, cfg, label="evaluate_reference")
+    dot = z3.StringVal(".")
+    last = z3.LastIndexOf(S, dot)
+    for p in ps:
+        imports, gets = rec.get("imports", []), rec.get("getattrs", [])
+        if p.kind == "return":
+            ok = isinstance(p.value, VOpaque) and p.value.kind == "attr" and len(imports) == 1 and len(gets) == 1 and gets[0][0] is p.value.info["module"] and p.value.info["module"].info["name"] is imports[0] \
+                and isinstance(imports[0], VStr) and isinstance(gets[0][1], VStr)
+            goal = z3.And(z3.Contains(S, dot), z_str(imports[0].v) == z3.SubString(S, 0, last), z_str(gets[0][1].v) == z3.SubString(S, last + 1, z3.Length(S) - last - 1), p.value.info["callable"]) if ok else z3.BoolVal(False)
+            u.oblige(p, "reference.resolve.module_and_attribute", goal, {"reference": S}, REF_REPLAY)
+        else:
+            name = p.exc_name()
+            if not imports:
+                u.oblige(p, "reference.resolve.refused_without_module_path", z3.And(zb(name == "ImportError"), z3.Or(z3.Length(S) == 0, z3.Not(z3.Contains(S, dot)))), {"reference": S, "exc": name}, REF_REPLAY)
+            elif not gets:
+                u.oblige(p, "reference.resolve.missing_module", name == "ModuleNotFoundError", {"exc": name}, REF_REPLAY)
+            else:
+                u.oblige(p, "reference.resolve.missing_or_not_callable", name in ("ImportError", "TypeError"), {"exc": name}, REF_REPLAY)
+    u.cover("reference.resolve.cover", ps, lambda p: p.kind == "return")
+    u.cover("reference.resolve.all_outcomes", ps, lambda p: True)
+    for exc in ("ImportError", "ModuleNotFoundError", "TypeError"):
+        u.cover(f"reference.resolve.outcome[{exc}]", ps, lambda p, exc=exc: p.kind == "raise" and p.exc_name() == exc)
